@@ -47,7 +47,7 @@ COMPONENTS = {
 REQUIRED = ['first_recv_1', 'first_recv_2', 'first_recv_3', 'frame_complete_in_first_recv', 'recv_eof', 'recv_timeout',
             'served', 'dropped', 'err_invalid', 'err_unsupported', 'routed_normal', 'two_handlers_in_flight',
             'short_send', 'short_recv', 'client_gone_before_reply', 'pipelined', 'near_timeout_gap', 'undecodable',
-            'conn_reset_on_recv', 'reply_delivered']
+            'conn_reset_on_recv', 'reply_delivered', 'frame_larger_than_read_buffer']
 
 
 def required_probes(tier):
@@ -218,6 +218,13 @@ def generate(seed, idx, tier):
             t, ec, key = rng.choice(reg)
             pclass = 'registered'
             text, ok = _build_text(rng, key, ctrl, version, ec, t[2], rng.random() < 0.6, unicode_)
+            if rng.random() < 0.03:
+                # a frame larger than the reader's 8 KiB buffer
+                note = ec['FIELD'].join(['NTE', '1', '', 'x' * rng.randrange(300, 900)])
+                body = text.rstrip('\r').split('\r')
+                while sum(len(b) + 1 for b in body) < rng.choice([8200, 8300, 9000, 12000]):
+                    body.append(note)
+                text = '\r'.join(body) + '\r'
             frame = SB + text.encode('utf-8') + EB + CR
         elif r < 0.50:
             ec = rng.choice(ec_pool)
@@ -338,6 +345,8 @@ def execute(case):
         faults['forced_context_switch'] = k.lib_switches
     T = int(case['cfg']['timeout_s'] * US)
     for cl in case['clients']:
+        if sum(len(h) // 2 for _, h in cl['chunks']) > 8192:
+            probes['frame_larger_than_read_buffer'] = probes.get('frame_larger_than_read_buffer', 0) + 1
         if cl.get('pclass') == 'pipelined':
             probes['pipelined'] = probes.get('pipelined', 0) + 1
         if cl.get('pclass') == 'badutf8' and w.final_expected[cl['cid']]['cls'] == M.DROPPED and \
